@@ -10,7 +10,7 @@ cd "$WT" || exit 2
 git checkout -q -- .
 LOG=$(mktemp)
 build() { cmake -G Ninja -S "$WT" -B "$WT/_build" >/dev/null 2>&1 && cmake --build "$WT/_build" -j8 >>"$LOG" 2>&1; }
-demo() { g++ -std=c++17 -O1 -I src "$M"/demo.cpp _build/libcoloquinte.so -Wl,-rpath,"$WT/_build" -pthread -o _build/demo_seed >>"$LOG" 2>&1 && timeout 300 ./_build/demo_seed >>"$LOG" 2>&1; }
+demo() { g++ -std=c++17 -O1 -I src "$M"/demo.cpp _build/libcoloquinte.so -Wl,-rpath,"$WT/_build" -pthread -o _build/demo_seed >>"$LOG" 2>&1 && timeout 300 ./_build/demo_seed "$WT" >>"$LOG" 2>&1; }
 git apply --check "$M/patch.diff" || { echo "INVALID: patch does not apply"; exit 1; }
 git apply "$M/patch.diff"
 build || { echo "INVALID: does not build with patch"; tail -5 "$LOG"; git checkout -q -- .; exit 1; }
